@@ -161,6 +161,9 @@ def generate(repo=None):
         "mutex_swap_acquired_if": (re.search(r"swap\(\s*2\s*,\s*\w+\s*\)\s*==\s*(\d+)", msrc) or [None, "-1"])[1],
         "mutex_spin_stop_unless": (re.search(r"state\s*!=\s*(\d+)\s*\|\|\s*spin\s*==\s*0", msrc) or [None, "-1"])[1],
     }
+    rsrc = strip_comments(open(os.path.join(repo, files[1][1])).read())
+    rspin = re.search(r"let\s+mut\s+spin\s*=\s*(\d+)", rsrc)
+    extra["rwlock_spin"] = int(rspin.group(1)) if rspin else -1
     fsrc = strip_comments(open(os.path.join(repo, files[3][1])).read())
     wait_op = re.search(r"(FUTEX_WAIT\s*[&|]\s*flags\.bits\(\)\.0|FUTEX_WAIT)\s*,", fsrc)
     wake_op = re.search(r"(FUTEX_WAKE\s*[&|]\s*[^,]+|FUTEX_WAKE)\s*,", fsrc)
